@@ -4,6 +4,7 @@ Only property theorems and non-vacuity examples live here; helper lemmas are in 
 -/
 import SfntV.Proofs.OtlCoverage
 import SfntV.Proofs.OtlClassDef
+import SfntV.Proofs.OtlGsub
 
 namespace SfntV.Props.C08
 open SfntV SfntV.Otl
@@ -155,5 +156,62 @@ def exClass : ClassDef.Tab := [(12, 1), (10, 1), (11, 1), (14, 0), (30, 2), (31,
 example : ClassDef.TabOk exClass := ⟨by decide, by decide⟩
 example : ClassDef.append exClass = .ok (wordsToBytes [2, 2, 10, 12, 1, 30, 33, 2]) := by decide
 example : ClassDef.append [(5, 1), (6, 1)] = .ok (wordsToBytes [1, 5, 2, 1, 1]) := by decide
+
+/-! ## GSUB subtables (models of the repaired `gsub.go`: a coverage offset that does not fit 16 bits
+is refused with a panic)
+
+Coverage tables are valid glyph lists as above; glyph ids and the delta are 16-bit values; there is
+one substitute / one sequence per covered glyph (the normal form the reader establishes by pruning).
+`readSubtable tp` is the model of `readGsubSubtable` for lookup type `tp`. -/
+
+/-- GSUB 1.1: decode ∘ encode = id. -/
+theorem C08_st_roundtrip_gsub1_1 (gs : List Nat) (h : Cov.Valid gs) (delta : Nat) (hd : delta < 65536) :
+    ∃ b, Gsub.encode11 gs delta = .ok b ∧ Gsub.readSubtable 1 b = .ok (.s11 gs delta) :=
+  let ⟨b, h1, h2, _⟩ := Gsub.roundtrip11 gs h delta hd; ⟨b, h1, h2⟩
+
+/-- GSUB 1.1: `encodeLen` is the number of bytes `encode` produces. -/
+theorem C08_st_len_gsub1_1 (gs : List Nat) (h : Cov.Valid gs) (delta : Nat) (hd : delta < 65536) :
+    ∃ b, Gsub.encode11 gs delta = .ok b ∧ Gsub.encodeLen11 gs = .ok b.length :=
+  let ⟨b, h1, _, h3⟩ := Gsub.roundtrip11 gs h delta hd; ⟨b, h1, h3⟩
+
+/-- GSUB 1.2: if the coverage offset `6 + 2n` fits 16 bits, decode ∘ encode = id and the declared
+size is the emitted size; otherwise the encoder refuses (panic) — it never writes a wrapped offset. -/
+theorem C08_st_roundtrip_gsub1_2 (rev subs : List Nat) (h : Cov.Valid rev)
+    (hl : subs.length = rev.length) (hs : ∀ x ∈ subs, x < 65536) :
+    (6 + 2 * subs.length ≤ 0xFFFF →
+      ∃ b, Gsub.encode12 rev subs = .ok b ∧ Gsub.readSubtable 1 b = .ok (.s12 rev.zipIdx subs)) ∧
+    (6 + 2 * subs.length > 0xFFFF → ∃ s, Gsub.encode12 rev subs = .panic s) :=
+  ⟨fun hfit => let ⟨b, h1, h2, _⟩ := Gsub.roundtrip12 rev subs h hl hs hfit; ⟨b, h1, h2⟩,
+   Gsub.refusal12 rev subs⟩
+
+theorem C08_st_len_gsub1_2 (rev subs : List Nat) (h : Cov.Valid rev)
+    (hl : subs.length = rev.length) (hs : ∀ x ∈ subs, x < 65536) (hfit : 6 + 2 * subs.length ≤ 0xFFFF) :
+    ∃ b, Gsub.encode12 rev subs = .ok b ∧ Gsub.encodeLen12 rev subs = .ok b.length :=
+  let ⟨b, h1, _, h3⟩ := Gsub.roundtrip12 rev subs h hl hs hfit; ⟨b, h1, h3⟩
+
+/-- GSUB 2.1 (`tp = 2`, Multiple Substitution) and GSUB 3.1 (`tp = 3`, Alternate Substitution),
+whose layouts coincide: if the table without its coverage (`seqTotal`, which is the coverage
+offset) fits 16 bits, decode ∘ encode = id; otherwise the encoder refuses. -/
+theorem C08_st_roundtrip_gsub2_1_3_1 (tp : Nat) (htp : tp = 2 ∨ tp = 3) (rev : List Nat)
+    (seqs : List (List Nat)) (h : Cov.Valid rev) (hl : seqs.length = rev.length)
+    (hs : ∀ r ∈ seqs, ∀ x ∈ r, x < 65536) :
+    (Gsub.seqTotal seqs ≤ 0xFFFF →
+      ∃ b, Gsub.encodeSeq rev seqs = .ok b ∧ Gsub.readSubtable tp b = .ok (.seq tp rev.zipIdx seqs)) ∧
+    (Gsub.seqTotal seqs > 0xFFFF → ∃ s, Gsub.encodeSeq rev seqs = .panic s) :=
+  ⟨fun hfit => let ⟨b, h1, h2, _⟩ := Gsub.roundtripSeq tp htp rev seqs h hl hs hfit; ⟨b, h1, h2⟩,
+   Gsub.refusalSeq rev seqs⟩
+
+theorem C08_st_len_gsub2_1_3_1 (rev : List Nat) (seqs : List (List Nat)) (h : Cov.Valid rev)
+    (hl : seqs.length = rev.length) (hs : ∀ r ∈ seqs, ∀ x ∈ r, x < 65536)
+    (hfit : Gsub.seqTotal seqs ≤ 0xFFFF) :
+    ∃ b, Gsub.encodeSeq rev seqs = .ok b ∧ Gsub.encodeLenSeq rev seqs = .ok b.length :=
+  let ⟨b, h1, _, h3⟩ := Gsub.roundtripSeq 2 (Or.inl rfl) rev seqs h hl hs hfit; ⟨b, h1, h3⟩
+
+/-! Non-vacuity -/
+example : Gsub.encode12 [4, 5, 9] [100, 101, 7] =
+    .ok (wordsToBytes [2, 12, 3, 100, 101, 7, 1, 3, 4, 5, 9]) := by decide
+example : Gsub.encodeSeq [4, 5] [[1, 2, 3], []] =
+    .ok (wordsToBytes [1, 20, 2, 10, 18, 3, 1, 2, 3, 0, 1, 2, 4, 5]) := by decide
+example : Gsub.seqTotal [[1, 2, 3], []] = 20 := by decide
 
 end SfntV.Props.C08
